@@ -1,23 +1,18 @@
-use candid_parser::{check_prog, IDLProg, syntax::IDLMergedProg};
-use candid::TypeEnv;
-use std::str::FromStr;
+use candid::{CandidType, Deserialize};
+use candid::types::internal::TypeContainer;
+#[derive(CandidType, Deserialize)]
+pub struct X { y: Option<Box<Y>>, z: Option<Box<Z>> }
+#[derive(CandidType, Deserialize)]
+pub struct Y { x: Option<Box<X>> }
+#[derive(CandidType, Deserialize)]
+pub struct Z { x: Option<Box<X>> }
 fn main() {
-    let src = r#"
-type A = record { "a b" : nat; 5 : opt A; "query" : vec nat8; "it's" : B };
-type B = variant { ok; err : text; "new" : record { nat; text } };
-type F = func (nat, B) -> (opt A) query;
-type S = service { get : F; "set val" : (A) -> () oneway };
-service : (nat, opt B) -> {
-  m1 : (A, B, record { x : nat; y : record { z : B } }) -> (F, S, vec record { nat; text }) composite_query;
-  "return" : (principal, blob, reserved, empty, float32) -> ();
-}
-"#;
-    let ast: IDLProg = src.parse().unwrap();
-    let mut env = TypeEnv::new();
-    let actor = check_prog(&mut env, &ast).unwrap();
-    let ast2: IDLProg = src.parse().unwrap();
-    let prog = IDLMergedProg::new(ast2);
-    let cfg = candid_parser::bindings::rust::Config::new(candid_parser::configs::Configs::from_str("").unwrap());
-    let (o, unused) = candid_parser::bindings::rust::emit_bindgen(&cfg, &env, &actor, &prog);
-    println!("{}\nMETHODS {:#?}\nINIT {:?}\n// unused: {unused:?}", o.type_defs, o.methods, o.init_args);
+    let mut c = TypeContainer::new();
+    let t = c.add::<Y>();
+    println!("{t}");
+    for (k, v) in c.env.0.iter() { println!("type {k} = {v};"); }
+    let mut c = TypeContainer::new();
+    let t = c.add::<Z>();
+    println!("--\n{t}");
+    for (k, v) in c.env.0.iter() { println!("type {k} = {v};"); }
 }
